@@ -57,6 +57,8 @@ def run(ctx):
     r611(ctx)
     r612(ctx, api)
     r613(ctx, api)
+    from . import findings3 as _f3
+    _f3.open_routes(ctx, 'R6.16')
     _cs.general_rules(ctx, 'R6', ['api.ParquetFile', 'api._pre_allocate', 'core.read_row_group', 'core.read_row_group_arrays'])
 
 
